@@ -81,6 +81,7 @@ pub open spec fn lookup(st: Seq<Scope>, name: Seq<char>, n: int) -> Option<Seq<c
     if n <= 0 { None } else if st[n - 1].vars@.dom().contains(name) { Some(st[n - 1].vars@[name]) } else { lookup(st, name, n - 1) }
 }
 
+pub uninterp spec fn defaulted(e: SvgElement) -> bool;
 /// everything of the context a scoping generator must restore
 pub open spec fn scope_frame(pre: TransformerContext, post: TransformerContext) -> bool {
     &&& post.element_stack@ == pre.element_stack@
@@ -222,6 +223,11 @@ impl TransformerContext {
 //@end
     #[verifier::external_body]
     pub fn set_prev_element(&mut self, el: &SvgElement) ensures scope_untouched(*old(self), *final(self)) { unimplemented!() }
+    /// the <defaults> in force have been applied to the element (a hand-written leaf gets them in Tag::generate_events)
+    #[verifier::external_body]
+    pub fn apply_defaults(&mut self, el: &mut SvgElement)
+        ensures scope_untouched(*old(self), *final(self)), final(self).vars_set == old(self).vars_set, defaulted(*final(el)), final(el).name == old(el).name
+    { unimplemented!() }
     #[verifier::external_body]
     pub fn get_original_element(&self, elref: &ElRef) -> Option<&SvgElement> { unimplemented!() }
     #[verifier::external_body]
@@ -322,6 +328,8 @@ impl EventGen for ReuseElement {
 //@ replace[R-ctor] <<<SvgElement::new("g", &[])>>> => <<<SvgElement::new_g()>>>
 //@ replace[R-ctor] <<<Position::from(&reuse_element)>>> => <<<position_from(&reuse_element)>>>
 //@ replace[R-abstract] <<<            let mut new_events = InputList::new();\n            let tag_name = instance_element.name.clone();\n            let mut start_ev = InputEvent::from(OutputEvent::Start(instance_element));\n            start_ev.index = start;\n            start_ev.alt_idx = Some(end);\n            new_events.push(start_ev);\n            new_events.extend(&InputList::from(&context.events[start + 1..end]));\n            let mut end_ev = InputEvent::from(OutputEvent::End(tag_name));\n            end_ev.index = end;\n            end_ev.alt_idx = Some(start);\n            new_events.push(end_ev);\n            process_events(new_events, context)>>> => <<<            let new_events = instance_events(instance_element, start, end, context);\n            process_events(new_events, context)>>>
+//@ before <<<instance_element.generate_events(context)>>>
+//@ | assert(defaulted(instance_element)); // a single-element instance is a leaf like the hand-written one: the defaults in force apply to it @C18.instance.defaults_applied
 //@ ensures
 //@ - r is Ok && old(context).scope_stack.len() > 0 ==> final(context).scope_stack@ == old(context).scope_stack@    @@C15.reuse.bindings_restored
 //@end
